@@ -19,7 +19,8 @@ From PTK Require Import Lib.Sx Lib.Py Model.Document Model.BufferEdit Model.C02_
   Proofs.C02_Base Proofs.C02_Coords Proofs.C02_WordsExact Proofs.C02_FindExact
   Proofs.C02_Words Proofs.C02_Boundaries
   Proofs.C08_SessionFacts Proofs.C08_LinewiseRange Proofs.C08_Spans Proofs.C08_Commands
-  Proofs.C08_LineNumbers
+  Proofs.C08_LineNumbers Proofs.C02_Find Proofs.C02_Brackets Proofs.C02_Lines
+  Proofs.C08_NavCursor Proofs.C08_Spans2 Proofs.C08_FindState
   Proofs.C08_Tables.
 Import ListNotations.
 Open Scope Z_scope.
@@ -362,12 +363,12 @@ Print Assumptions C08_applied_operator_clears.
 Theorem C08_operator_motion_step : forall s k keys m o failed,
   ks_op s = Some (k, keys) ->
   let '(n, hc) := pending_count (ks_oparg s) (ks_arg s) in
-  text_object m (bdoc (vbuf (ks_vst s))) n hc = TO o failed ->
+  text_object (resolve_tok (ks_find s) m) (bdoc (vbuf (ks_vst s))) n hc = TO o failed ->
   cancelled o failed = false ->
   key_step s (KM m) =
   (let '(status, st1) := run_op k (ks_vst s) o (mkev n keys) in
    (status, mkks (if (status =? 0) && negb (vins st1) then with_buf st1 (fix_vi_cursor (vbuf st1)) else st1)
-                 None None None (Some (o, failed)))).
+                 None None None (Some (o, failed)) (upd_find (ks_find s) m))).
 Proof. exact operator_motion_step. Qed.
 Print Assumptions C08_operator_motion_step.
 
@@ -390,11 +391,16 @@ Print Assumptions C08_typed_digits.
    exclusive object with equal ends) the wrapper cancels the operator: text,
    cursor, clipboard, registers and input mode stay as they were, and no
    count or operator stays pending (fix ced036e). *)
+(* (round 6) the text object is the one the key denotes in the session:
+   [resolve_tok] turns ; and , into the search recorded in
+   vi_state.last_character_find; [with_find .. (upd_find ..)]: the one thing a
+   cancelled f F t T leaves behind is that record (not text, cursor, clipboard,
+   registers, mode or anything pending) - see C08_find_recorded below *)
 Theorem C08_failed_motion_noop : forall s k keys m o,
   ks_op s = Some (k, keys) ->
   let '(n, hc) := pending_count (ks_oparg s) (ks_arg s) in
-  text_object m (bdoc (vbuf (ks_vst s))) n hc = TO o true ->
-  key_step s (KM m) = (0, cleared s).
+  text_object (resolve_tok (ks_find s) m) (bdoc (vbuf (ks_vst s))) n hc = TO o true ->
+  key_step s (KM m) = (0, with_find (cleared s) (upd_find (ks_find s) m)).
 Proof.
   intros s k keys m o Hop. pose proof (wrapper_cancels s k keys m o true Hop) as H.
   destruct (pending_count (ks_oparg s) (ks_arg s)) as [n hc]. intros Ht. apply H; [exact Ht|reflexivity].
@@ -406,9 +412,9 @@ Print Assumptions C08_failed_motion_noop.
 Theorem C08_empty_exclusive_cancels : forall s k keys m o failed,
   ks_op s = Some (k, keys) ->
   let '(n, hc) := pending_count (ks_oparg s) (ks_arg s) in
-  text_object m (bdoc (vbuf (ks_vst s))) n hc = TO o failed ->
+  text_object (resolve_tok (ks_find s) m) (bdoc (vbuf (ks_vst s))) n hc = TO o failed ->
   ttype o = EXCL -> tstart o = tend o ->
-  key_step s (KM m) = (0, cleared s).
+  key_step s (KM m) = (0, with_find (cleared s) (upd_find (ks_find s) m)).
 Proof.
   intros s k keys m o failed Hop. pose proof (wrapper_cancels s k keys m o failed Hop) as H.
   destruct (pending_count (ks_oparg s) (ks_arg s)) as [n hc]. intros Ht Hty Heq. apply H; [exact Ht|].
@@ -420,7 +426,7 @@ Print Assumptions C08_empty_exclusive_cancels.
 Theorem C08_wrapper_same_as_pinned : forall s k keys m o failed,
   ks_op s = Some (k, keys) ->
   let '(n, hc) := pending_count (ks_oparg s) (ks_arg s) in
-  text_object m (bdoc (vbuf (ks_vst s))) n hc = TO o failed ->
+  text_object (resolve_tok (ks_find s) m) (bdoc (vbuf (ks_vst s))) n hc = TO o failed ->
   cancelled o failed = false ->
   key_step s (KM m) = key_step_pinned s (KM m).
 Proof. exact wrapper_same_as_pinned. Qed.
@@ -462,7 +468,7 @@ Print Assumptions C08_cancelled_spec.
    nothing pending - "the cursor stays" holds exactly for those cursors
    ('ab' cursor 2 dFx ends with cursor 1, as in /repo). *)
 Theorem C08_cleared_nav : forall s,
-  nav_cursor (vbuf (ks_vst s)) -> cleared s = mkks (ks_vst s) None None None (ks_last s).
+  nav_cursor (vbuf (ks_vst s)) -> cleared s = mkks (ks_vst s) None None None (ks_last s) (ks_find s).
 Proof. exact cleared_nav. Qed.
 Print Assumptions C08_cleared_nav.
 
@@ -749,8 +755,7 @@ Print Assumptions C08_cmd_d_e.
 Theorem C08_cmd_d_f : forall st d n hc ch l p ev,
   at_doc st d -> valid d ->
   greedy (occ ceq_exact [ch] (find_scanned d true false)) (fstep [ch]) 0 l ->
-  0 < len (current_line_after_cursor d) -> nth_match l n = Some p -> 0 <= p ->
-  dcur d + p + 2 <= len (dtext d) ->
+  0 < len (current_line_after_cursor d) -> nth_match l n = Some p ->
   text_object (T_f ch) d n hc = TO (mkto (p + 1) 0 INCL) false /\
   removes st (op_delete true false st (mkto (p + 1) 0 INCL) ev) (dcur d) (dcur d + p + 2).
 Proof. exact cmd_d_f. Qed.
@@ -765,6 +770,294 @@ Theorem C08_cmd_d_iw : forall st d n hc W s e ev,
   removes st (op_delete true false st (mkto s e EXCL) ev) (dcur d + s) (dcur d + e).
 Proof. exact cmd_d_iw. Qed.
 Print Assumptions C08_cmd_d_iw.
+
+(* ------------------------------------------------------------------ *)
+(* Round 6.  [spans st o a e]: the operator range of the object o in state st
+   is exactly the non-empty absolute span [a, e) inside the text.  ONE
+   statement then covers every character-wise operator: d / c remove exactly
+   text[a:e], put the cursor at a and store exactly text[a:e]; the register
+   variants store it in the typed register and leave the clipboard alone;
+   y and its register variant store exactly text[a:e] and change nothing; the
+   case operators rewrite exactly text[a:e] in place.  The per-command
+   theorems below establish [spans] for the object the text-object function
+   returns, so each of them holds for c, y, the register variants and the
+   case operators as well (the C08_cmd_d_* theorems above are the d instances). *)
+Theorem C08_spans_all_operators : forall st o a e,
+  spans st o a e ->
+  (forall del ev,
+     op_delete del false st o ev =
+     (0, mkvst (mkbuf (text_without st a e) a) (Some (mkcd (span_text st a e) 0)) (vreg st)
+               (if del then vins st else true))) /\
+  (forall del ev k, nth_error (ekeys ev) 1 = Some k -> is_regname k = true ->
+     op_delete del true st o ev =
+     (0, mkvst (mkbuf (text_without st a e) a) (vclip st) (Some (k, mkcd (span_text st a e) 0))
+               (if del then vins st else true))) /\
+  (forall ev,
+     op_yank st o ev = (0, mkvst (vbuf st) (Some (mkcd (span_text st a e) 0)) (vreg st) (vins st))) /\
+  (forall ev k, nth_error (ekeys ev) 1 = Some k -> is_regname k = true ->
+     op_yank_reg st o ev =
+     (0, mkvst (vbuf st) (vclip st) (Some (k, mkcd (span_text st a e) 0)) (vins st))) /\
+  (forall F ev, Inv (vbuf st) ->
+     exists c',
+       op_transform F st o ev =
+       (0, with_buf st (mkbuf (firstn (Z.to_nat a) (btext (vbuf st)) ++ F (span_text st a e)
+                               ++ skipn (Z.to_nat e) (btext (vbuf st))) c'))).
+Proof. exact spans_all_operators. Qed.
+Print Assumptions C08_spans_all_operators.
+
+(* the hypotheses of C08_spans_all_operators are satisfiable: 'ab cd', cursor 0, w *)
+Example C08_spans_applies :
+  spans (st_of [97; 98; 32; 99; 100] 0) (mk1 3) 0 3.
+Proof. unfold spans. vm_compute. repeat split; try discriminate. left; reflexivity. Qed.
+
+(* $ 0 w b e f iw at the [spans] level (every character-wise operator) *)
+Theorem C08_cmd_dollar : forall st d n hc,
+  at_doc st d -> valid d -> 0 < len (current_line_after_cursor d) ->
+  exists o, text_object T_dollar d n hc = TO o false /\
+    spans st o (dcur d) (dcur d + len (current_line_after_cursor d)).
+Proof. exact cmd_dollar. Qed.
+Print Assumptions C08_cmd_dollar.
+
+Theorem C08_cmd_zero : forall st d n hc,
+  at_doc st d -> valid d -> 0 < len (current_line_before_cursor d) ->
+  exists o, text_object T_zero d n hc = TO o false /\
+    spans st o (dcur d - len (current_line_before_cursor d)) (dcur d).
+Proof. exact cmd_zero. Qed.
+Print Assumptions C08_cmd_zero.
+
+Theorem C08_cmd_w : forall st d n hc W l j,
+  at_doc st d -> valid d -> 1 <= n ->
+  enumerates (fun j => dcur d < j /\ word_start (word_cls W) (dtext d) j) l ->
+  pick l n = Some j ->
+  text_object (T_w W) d n hc = TO (mk1 (j - dcur d)) false /\
+  (snd (translate_index_to_position d j) <> 0 -> spans st (mk1 (j - dcur d)) (dcur d) j) /\
+  (snd (translate_index_to_position d j) = 0 -> dcur d + 1 < j ->
+     spans st (mk1 (j - dcur d)) (dcur d) (j - 1)).
+Proof. exact cmd_w. Qed.
+Print Assumptions C08_cmd_w.
+
+Theorem C08_cmd_b : forall st d n hc W l j,
+  at_doc st d -> valid d -> 1 <= n ->
+  enumerates (fun j => j < dcur d /\ word_start (word_cls W) (dtext d) j) l ->
+  pick (rev l) n = Some j ->
+  0 < len (current_line_before_cursor d) ->
+  text_object (T_b W) d n hc = TO (mk1 (j - dcur d)) false /\
+  spans st (mk1 (j - dcur d)) j (dcur d).
+Proof. exact cmd_b. Qed.
+Print Assumptions C08_cmd_b.
+
+(* db from the first column of a line: the line ending before the cursor stays *)
+Theorem C08_cmd_b_col0 : forall st d n hc W l j,
+  at_doc st d -> valid d -> 1 <= n ->
+  enumerates (fun j => j < dcur d /\ word_start (word_cls W) (dtext d) j) l ->
+  pick (rev l) n = Some j ->
+  col d (dcur d) = 0 -> j < dcur d - 1 ->
+  text_object (T_b W) d n hc = TO (mk1 (j - dcur d)) false /\
+  spans st (mk1 (j - dcur d)) j (dcur d - 1).
+Proof. exact cmd_b_col0. Qed.
+Print Assumptions C08_cmd_b_col0.
+
+Theorem C08_cmd_e : forall st d n hc W l j,
+  at_doc st d -> valid d -> 1 <= n ->
+  enumerates (fun j => dcur d + 1 < j /\ word_end (word_cls W) (dtext d) j) l ->
+  pick l n = Some j ->
+  text_object (T_e W) d n hc = TO (mkto (j - 1 - dcur d) 0 INCL) false /\
+  spans st (mkto (j - 1 - dcur d) 0 INCL) (dcur d) j.
+Proof. exact cmd_e. Qed.
+Print Assumptions C08_cmd_e.
+
+(* fx: through the count-th x; that character IS x and lies on the cursor line
+   (no side conditions left: they follow from membership in the greedy list) *)
+Theorem C08_cmd_f : forall st d n hc ch l p,
+  at_doc st d -> valid d ->
+  greedy (occ ceq_exact [ch] (find_scanned d true false)) (fstep [ch]) 0 l ->
+  0 < len (current_line_after_cursor d) -> nth_match l n = Some p ->
+  text_object (T_f ch) d n hc = TO (mkto (p + 1) 0 INCL) false /\
+  spans st (mkto (p + 1) 0 INCL) (dcur d) (dcur d + p + 2) /\
+  nth_error (dtext d) (Z.to_nat (dcur d + p + 1)) = Some ch /\
+  p + 2 <= len (current_line_after_cursor d).
+Proof. exact cmd_f. Qed.
+Print Assumptions C08_cmd_f.
+
+Theorem C08_cmd_iw : forall st d n hc W s e,
+  at_doc st d -> valid d ->
+  find_boundaries_of_current_word d W false false = (s, e) -> 0 < e ->
+  text_object (T_word W false) d n hc = TO (mkto s e EXCL) false /\
+  is_run (word_cls W) (dtext d) (dcur d + s) (dcur d + e) /\
+  spans st (mkto s e EXCL) (dcur d + s) (dcur d + e).
+Proof. exact cmd_iw. Qed.
+Print Assumptions C08_cmd_iw.
+
+(* EVERY exclusive motion TextObject(v) with the target inside the text: the
+   span lies between cursor and target; when its larger end is the first
+   column of a line, the line ending before it stays (both directions; covers
+   h l w b 0 $ ^ | F T { } ...) *)
+Theorem C08_cmd_excl_motion : forall st d v,
+  at_doc st d -> valid d -> 0 <= dcur d + v <= len (dtext d) -> v <> 0 ->
+  let a := Z.min (dcur d) (dcur d + v) in
+  let e := Z.max (dcur d) (dcur d + v) in
+  (col d e <> 0 -> spans st (mk1 v) a e) /\
+  (col d e = 0 -> a < e - 1 -> spans st (mk1 v) a (e - 1)).
+Proof. exact cmd_excl_motion. Qed.
+Print Assumptions C08_cmd_excl_motion.
+
+(* EVERY two-ended exclusive object TextObject(s, e), s < e, inside the text *)
+Theorem C08_cmd_excl_object : forall st d s e,
+  at_doc st d -> s < e -> 0 <= dcur d + s -> dcur d + e <= len (dtext d) ->
+  (col d (dcur d + e) <> 0 -> spans st (mkto s e EXCL) (dcur d + s) (dcur d + e)) /\
+  (col d (dcur d + e) = 0 -> s < e - 1 -> spans st (mkto s e EXCL) (dcur d + s) (dcur d + e - 1)).
+Proof. exact cmd_excl_object. Qed.
+Print Assumptions C08_cmd_excl_object.
+
+(* aw / aW on a word: the maximal run of the cursor character's class [s, e0)
+   plus the blanks (no line ending) that follow it on the line, up to a
+   non-blank character or the line end *)
+Theorem C08_cmd_aw : forall st d n hc W s e,
+  at_doc st d -> valid d ->
+  find_boundaries_of_current_word d W false true = (s, e) -> 0 < e ->
+  text_object (T_word W true) d n hc = TO (mkto s e EXCL) false /\
+  spans st (mkto s e EXCL) (dcur d + s) (dcur d + e) /\
+  exists e0, 0 < e0 <= e /\
+    is_run (word_cls W) (dtext d) (dcur d + s) (dcur d + e0) /\
+    (forall j, dcur d + e0 <= j < dcur d + e ->
+       exists x, nth_error (dtext d) (Z.to_nat j) = Some x /\ re_space x = true /\ x <> NL) /\
+    (forall x, index (dtext d) (dcur d + e) = Some x -> re_space x = false \/ x = NL).
+Proof. exact cmd_aw. Qed.
+Print Assumptions C08_cmd_aw.
+
+(* the bracket objects, any pair l <> r (r not a line ending): s' / e' are the
+   offsets of the enclosing brackets (C02: the nearest unbalanced ones); the
+   characters there are l and r; a( spans from l through r; i( spans strictly
+   between them (column-0 rule at the far end) *)
+Theorem C08_cmd_bracket : forall st d n hc l r (inner : bool) s' e',
+  at_doc st d -> valid d -> (l =? r) = false -> r <> NL ->
+  find_enclosing_bracket_left d l r None = Some s' ->
+  find_enclosing_bracket_right d l r None = Some e' ->
+  let off := if inner then 0 else 1 in
+  text_object (T_ci l r inner) d n hc =
+    TO (mkto (s' + 1 - off) (e' + off) EXCL) (e' + off =? s' + 1 - off) /\
+  s' <= 0 <= e' /\
+  nth_error (dtext d) (Z.to_nat (dcur d + s')) = Some l /\
+  nth_error (dtext d) (Z.to_nat (dcur d + e')) = Some r /\
+  (inner = false ->
+     spans st (mkto s' (e' + 1) EXCL) (dcur d + s') (dcur d + e' + 1)) /\
+  (inner = true -> s' + 1 < e' -> col d (dcur d + e') <> 0 ->
+     spans st (mkto (s' + 1) e' EXCL) (dcur d + s' + 1) (dcur d + e')) /\
+  (inner = true -> s' + 1 < e' - 1 -> col d (dcur d + e') = 0 ->
+     spans st (mkto (s' + 1) e' EXCL) (dcur d + s' + 1) (dcur d + e' - 1)).
+Proof. exact cmd_bracket. Qed.
+Print Assumptions C08_cmd_bracket.
+
+(* ge / gE, cursor not at the end of the text: from the last character of the
+   count-th word ending at or before the cursor through the cursor character *)
+Theorem C08_cmd_ge : forall st d n hc W l,
+  at_doc st d -> valid d -> 1 <= n -> dcur d < len (dtext d) ->
+  enumerates (fun j => j <= dcur d /\ word_end (word_cls W) (dtext d) j) l ->
+  match pick (rev l) n with
+  | Some j =>
+      text_object (T_ge W) d n hc = TO (mkto (j - 1 - dcur d) 0 INCL) false /\
+      spans st (mkto (j - 1 - dcur d) 0 INCL) (j - 1) (dcur d + 1)
+  | None => text_object (T_ge W) d n hc = TO (mkto 0 0 INCL) true
+  end.
+Proof. exact cmd_ge. Qed.
+Print Assumptions C08_cmd_ge.
+
+(* { } ap: spans between the cursor and where start_of_paragraph /
+   end_of_paragraph lead (C02p_start_of_paragraph_lands / _end_: the count-th
+   blank line, else the text boundary) *)
+Theorem C08_cmd_lbrace : forall st d n hc v,
+  at_doc st d -> valid d -> start_of_paragraph d n true = Some v ->
+  text_object T_lbrace d n hc = excl0 v /\ v <= 0 /\ 0 <= dcur d + v /\
+  (v < 0 -> col d (dcur d) <> 0 -> spans st (mk1 v) (dcur d + v) (dcur d)) /\
+  (v < -1 -> col d (dcur d) = 0 -> spans st (mk1 v) (dcur d + v) (dcur d - 1)).
+Proof. exact cmd_lbrace. Qed.
+Print Assumptions C08_cmd_lbrace.
+
+Theorem C08_cmd_rbrace : forall st d n hc v,
+  at_doc st d -> valid d -> end_of_paragraph d n true = Some v ->
+  text_object T_rbrace d n hc = excl0 v /\ 0 <= v /\ dcur d + v <= len (dtext d) /\
+  (0 < v -> col d (dcur d + v) <> 0 -> spans st (mk1 v) (dcur d) (dcur d + v)) /\
+  (1 < v -> col d (dcur d + v) = 0 -> spans st (mk1 v) (dcur d) (dcur d + v - 1)).
+Proof. exact cmd_rbrace. Qed.
+Print Assumptions C08_cmd_rbrace.
+
+Theorem C08_cmd_ap : forall st d n hc s e,
+  at_doc st d -> valid d ->
+  start_of_paragraph d 1 false = Some s -> end_of_paragraph d n false = Some e ->
+  text_object T_ap d n hc = TO (mkto s e EXCL) (s =? e) /\ s <= 0 <= e /\
+  (s < e -> col d (dcur d + e) <> 0 -> spans st (mkto s e EXCL) (dcur d + s) (dcur d + e)) /\
+  (s < e - 1 -> col d (dcur d + e) = 0 -> spans st (mkto s e EXCL) (dcur d + s) (dcur d + e - 1)).
+Proof. exact cmd_ap. Qed.
+Print Assumptions C08_cmd_ap.
+
+(* ------------------------------------------------------------------ *)
+(* Round 6.  The cursor fix-up that runs after every navigation-mode handler
+   is idempotent on every valid cursor, so the count theorems hold from ANY
+   valid cursor (also one after the last character of a line: temporary
+   navigation mode, documents set by program), no navigation-cursor
+   hypothesis left. *)
+Theorem C08_fix_vi_cursor_idem : forall b,
+  valid (bdoc b) -> fix_vi_cursor (fix_vi_cursor b) = fix_vi_cursor b.
+Proof. exact fix_vi_cursor_idem. Qed.
+Print Assumptions C08_fix_vi_cursor_idem.
+
+(* digits only extend the count; in navigation mode the first digit typed
+   runs the cursor fix-up ([after_digits]), and that is all *)
+Theorem C08_typed_digits_any : forall p ds s rest,
+  is_count (ks_arg s) ds -> vins (ks_vst s) = false -> valid (bdoc (vbuf (ks_vst s))) ->
+  run_keys_gen p s (map KD ds ++ rest) =
+  run_keys_gen p (with_arg (after_digits s ds) (typed (ks_arg s) ds)) rest.
+Proof. exact run_digits_any. Qed.
+Print Assumptions C08_typed_digits_any.
+
+Theorem C08_cancelled_operator_noop_any : forall p s ds1 k keys ds2 rest,
+  ks_op s = None -> vins (ks_vst s) = false -> valid (bdoc (vbuf (ks_vst s))) ->
+  is_count (ks_arg s) ds1 -> is_count None ds2 ->
+  run_keys_gen p s (map KD ds1 ++ KO k keys :: map KD ds2 ++ KE :: rest) =
+  run_keys_gen p (cleared s) rest.
+Proof. exact cancelled_operator_any. Qed.
+Print Assumptions C08_cancelled_operator_noop_any.
+
+(* ------------------------------------------------------------------ *)
+(* Round 6 (seeded C08-12).  vi_state.last_character_find is session state:
+   EVERY f F t T key records its search - found or not, under an operator
+   (applied, cancelled) or typed alone; no other key touches the record; ; and
+   , under an operator are exactly the recorded search, so when the recorded
+   search finds nothing they cancel the operator - also right after a FAILED
+   find (they do not fall back to an older successful one). *)
+Theorem C08_find_recorded : forall p s m status s',
+  key_step_gen p s (KM m) = (status, s') -> ks_find s' = upd_find (ks_find s) m.
+Proof. exact find_recorded. Qed.
+Print Assumptions C08_find_recorded.
+
+Theorem C08_other_keys_keep_find : forall p s key status s',
+  (forall m, key <> KM m) -> key_step_gen p s key = (status, s') -> ks_find s' = ks_find s.
+Proof. exact other_keys_keep_find. Qed.
+Print Assumptions C08_other_keys_keep_find.
+
+Theorem C08_repeat_fails_cancels : forall s k keys rv ch bw o,
+  ks_op s = Some (k, keys) -> ks_find s = Some (ch, bw) ->
+  let '(n, hc) := pending_count (ks_oparg s) (ks_arg s) in
+  text_object (T_repeat rv true ch bw) (bdoc (vbuf (ks_vst s))) n hc = TO o true ->
+  key_step s (KM (T_rep rv)) = (0, cleared s).
+Proof. exact repeat_fails_cancels. Qed.
+Print Assumptions C08_repeat_fails_cancels.
+
+Theorem C08_repeat_without_find_cancels : forall s k keys rv,
+  ks_op s = Some (k, keys) -> ks_find s = None ->
+  key_step s (KM (T_rep rv)) = (0, cleared s).
+Proof. exact repeat_without_find_cancels. Qed.
+Print Assumptions C08_repeat_without_find_cancels.
+
+(* f ch (whatever it did), then operator + ; with no ch after the cursor on
+   its line: the operator is cancelled *)
+Theorem C08_failed_find_then_repeat : forall s ch status s1 k keys o,
+  key_step s (KM (T_f ch)) = (status, s1) -> ks_op s1 = Some (k, keys) ->
+  let '(n, hc) := pending_count (ks_oparg s1) (ks_arg s1) in
+  text_object (T_f ch) (bdoc (vbuf (ks_vst s1))) n hc = TO o true ->
+  key_step s1 (KM (T_rep false)) = (0, cleared s1).
+Proof. exact failed_find_then_repeat. Qed.
+Print Assumptions C08_failed_find_then_repeat.
 
 (* ------------------------------------------------------------------ *)
 (* Tables regenerated from the repo on every run (gen/gen_t_c08.py). *)
